@@ -260,34 +260,64 @@ Proof.
     cbn [repr lower_div]; repeat rewrite tof_Z by assumption; reflexivity.
 Qed.
 
-Lemma mod_correct : forall a b v,
-  wf a -> wf b -> modulo a b = ROk v ->
-  lower_mod (repr a) (repr b) = LOk (repr v).
+Lemma minus_one_eqb : forall y, min64 <= y <= max64 -> (y mod 2^64 =? m64 - 1) = (y =? -1).
 Proof.
-  intros a b v Wa Wb H.
+  intros y Hy. change (m64 - 1) with ((-1) mod 2^64). apply mod64_eqb; auto. unfold min64, max64; lia.
+Qed.
+
+Lemma srem_sel : forall x y, min64 <= x <= max64 -> min64 <= y <= max64 -> y <> 0 ->
+  srem64 (x mod 2^64) (if y =? -1 then 1 else y mod 2^64) = Some ((Z.rem x y) mod 2^64).
+Proof.
+  intros x y Hx Hy Hn. unfold srem64.
+  destruct (y =? -1) eqn:E.
+  - apply Z.eqb_eq in E. subst. cbn [Z.eqb]. rewrite signed64_mod by assumption.
+    change (signed64 1) with 1. replace ((x =? - 2 ^ 63) && (1 =? -1)) with false by (rewrite andb_false_r; reflexivity).
+    rewrite Z.rem_1_r. replace (Z.rem x (-1)) with 0; [reflexivity|].
+    symmetry. change (-1) with (- (1)). rewrite Z.rem_opp_r by lia. apply Z.rem_1_r.
+  - apply Z.eqb_neq in E.
+    replace (y mod 2^64 =? 0) with false.
+    2:{ symmetry. apply Z.eqb_neq. intros C. apply Hn. rewrite <- (signed64_mod y Hy). rewrite C. reflexivity. }
+    rewrite !signed64_mod by assumption.
+    replace ((x =? - 2 ^ 63) && (y =? -1)) with false; [reflexivity|].
+    symmetry. apply andb_false_iff. right. apply Z.eqb_neq. exact E.
+Qed.
+
+Lemma srem_byte : forall x y, min64 <= x <= max64 -> 0 <= y < 256 -> y <> 0 ->
+  srem64 (x mod 2^64) (if y =? m64 - 1 then 1 else y) = Some ((Z.rem x y) mod 2^64).
+Proof.
+  intros x y Hx Hy Hn.
+  assert (Hy' : min64 <= y <= max64) by (unfold min64, max64; lia).
+  pose proof (srem_sel x y Hx Hy' Hn) as E.
+  replace (y =? -1) with false in E by (symmetry; apply Z.eqb_neq; lia).
+  rewrite (small_byte_mod y Hy) in E.
+  replace (y =? m64 - 1) with false by (symmetry; apply Z.eqb_neq; unfold m64; lia). exact E.
+Qed.
+
+Lemma mod_correct : forall a b,
+  wf a -> wf b ->
+  (forall v, modulo a b = ROk v -> lower_mod (repr a) (repr b) = LOk (repr v)) /\
+  (modulo a b = RErr -> lower_mod (repr a) (repr b) = LRtErr).
+Proof.
+  intros a b Wa Wb.
+  assert (BR : forall y, 0 <= y < 256 -> min64 <= y <= max64) by (unfold min64, max64; intros; lia).
   assert (M0 : forall y, min64 <= y <= max64 -> (y mod 2^64 =? 0) = (y =? 0)).
   { intros y Hy. rewrite <- (mod64_eqb y 0 Hy) by (unfold min64, max64; lia). reflexivity. }
-  destruct a, b; cbn in Wa, Wb; try contradiction; cbn [modulo to_i] in H; unfold ill in H; try discriminate H.
-  - (* Z Z *)
-    destruct (z0 =? 0) eqn:E0; [discriminate H|].
-    destruct ((z =? min64) && (z0 =? -1)) eqn:EO; [discriminate H|]. inv H.
-    cbn [repr lower_mod]. unfold srem64. rewrite M0 by assumption. rewrite E0.
-    rewrite !signed64_mod by assumption. unfold min64 in EO. rewrite EO. reflexivity.
-  - (* Z B *)
-    destruct (z0 =? 0) eqn:E0; [discriminate H|].
-    destruct ((z =? min64) && (z0 =? -1)) eqn:EO; [discriminate H|]. inv H.
-    cbn [repr lower_mod]. unfold srem64, zext8_64. rewrite E0.
-    rewrite signed64_mod by assumption. rewrite signed64_small by assumption.
-    unfold min64 in EO. rewrite EO. reflexivity.
-  - (* B Z *)
-    destruct (z0 =? 0) eqn:E0; [discriminate H|].
-    destruct ((z =? min64) && (z0 =? -1)) eqn:EO; [discriminate H|]. inv H.
-    cbn [repr lower_mod]. unfold srem64, zext8_64. rewrite M0 by assumption. rewrite E0.
-    rewrite signed64_mod by assumption. rewrite signed64_small by assumption.
-    unfold min64 in EO. rewrite EO. reflexivity.
-  - (* B B *)
-    destruct (z0 =? 0) eqn:E0; [discriminate H|]. inv H.
-    cbn [repr lower_mod]. unfold urem8. rewrite E0. reflexivity.
+  destruct a, b; cbn in Wa, Wb; try contradiction; cbn [modulo to_i]; unfold ill;
+    (split; [intros v H|intros H]); try discriminate H; cbn [repr lower_mod]; unfold zext8_64.
+  - (* Z Z *) destruct (z0 =? 0) eqn:E0; [discriminate H|]. inv H.
+    rewrite M0 by assumption. rewrite E0. rewrite minus_one_eqb by assumption.
+    rewrite srem_sel by (auto; apply Z.eqb_neq; exact E0). cbn [of_opt repr]. reflexivity.
+  - destruct (z0 =? 0) eqn:E0; [|discriminate H]. rewrite M0 by assumption. rewrite E0. reflexivity.
+  - (* Z B *) destruct (z0 =? 0) eqn:E0; [discriminate H|]. inv H.
+    rewrite srem_byte by (auto; apply Z.eqb_neq; exact E0). cbn [of_opt repr]. reflexivity.
+  - destruct (z0 =? 0) eqn:E0; [|discriminate H]. reflexivity.
+  - (* B Z *) destruct (z0 =? 0) eqn:E0; [discriminate H|]. inv H.
+    rewrite M0 by assumption. rewrite E0. rewrite minus_one_eqb by assumption.
+    rewrite <- (small_byte_mod z) at 1 by assumption.
+    rewrite srem_sel by (auto; apply Z.eqb_neq; exact E0). cbn [of_opt repr]. reflexivity.
+  - destruct (z0 =? 0) eqn:E0; [|discriminate H]. rewrite M0 by assumption. rewrite E0. reflexivity.
+  - (* B B *) destruct (z0 =? 0) eqn:E0; [discriminate H|]. inv H. unfold urem8. rewrite E0. reflexivity.
+  - destruct (z0 =? 0) eqn:E0; [|discriminate H]. reflexivity.
 Qed.
 
 Lemma shl64_ok : forall z n, 0 <= n < 64 ->
@@ -308,30 +338,52 @@ Proof.
   apply Z.div_lt_upper_bound; [lia|]. nia.
 Qed.
 
+Lemma sel64_ok : forall left z n, 0 <= n < 64 ->
+  sel_shift64 left (z mod 2^64) n =
+  (if left then wrap64 (z * 2 ^ n) else wrap64 ((z mod 2^64) / 2 ^ n)) mod 2^64.
+Proof.
+  intros left z n Hn. unfold sel_shift64. replace (n <? 64) with true by (symmetry; apply Z.ltb_lt; lia).
+  destruct left.
+  - pose proof (shl64_ok z n Hn) as E. unfold shl64 in E.
+    replace (n <? 64) with true in E by (symmetry; apply Z.ltb_lt; lia). now inversion E.
+  - pose proof (lshr64_ok z n Hn) as E. unfold lshr64 in E.
+    replace (n <? 64) with true in E by (symmetry; apply Z.ltb_lt; lia). now inversion E.
+Qed.
+
+Lemma sel64_out : forall left x n, 64 <= n -> sel_shift64 left x n = 0.
+Proof. intros. unfold sel_shift64. replace (n <? 64) with false by (symmetry; apply Z.ltb_ge; lia). reflexivity. Qed.
+
 Lemma shift_correct : forall left a b v,
   wf a -> wf b -> shift left a b = ROk v ->
   lower_shift left (repr a) (repr b) = LOk (repr v).
 Proof.
   intros left a b v Wa Wb H.
-  destruct a, b; cbn in Wa, Wb; try contradiction; cbn [shift to_i] in H; unfold ill in H; try discriminate H.
-  - destruct ((z0 <? 0) || (64 <=? z0)) eqn:G; [discriminate H|]. inv H.
-    apply orb_false_iff in G. destruct G as [G1 G2]. apply Z.ltb_ge in G1. apply Z.leb_gt in G2.
-    cbn [repr lower_shift]. rewrite (Z.mod_small z0) by lia.
-    destruct left; [rewrite shl64_ok by lia|rewrite lshr64_ok by lia]; reflexivity.
-  - destruct ((z0 <? 0) || (64 <=? z0)) eqn:G; [discriminate H|]. inv H.
-    apply orb_false_iff in G. destruct G as [G1 G2]. apply Z.ltb_ge in G1. apply Z.leb_gt in G2.
-    cbn [repr lower_shift]. unfold zext8_64.
-    destruct left; [rewrite shl64_ok by lia|rewrite lshr64_ok by lia]; reflexivity.
-  - destruct ((z0 <? 0) || (8 <=? z0)) eqn:G; [discriminate H|]. inv H.
-    apply orb_false_iff in G. destruct G as [G1 G2]. apply Z.ltb_ge in G1. apply Z.leb_gt in G2.
-    cbn [repr lower_shift]. unfold trunc64_8. rewrite mod_mod_256. rewrite (Z.mod_small z0 256) by lia.
-    destruct left; unfold shl8, lshr8; (replace (z0 <? 8) with true by (symmetry; apply Z.ltb_lt; lia));
-      reflexivity.
-  - destruct ((z0 <? 0) || (8 <=? z0)) eqn:G; [discriminate H|]. inv H.
-    apply orb_false_iff in G. destruct G as [G1 G2]. apply Z.ltb_ge in G1. apply Z.leb_gt in G2.
+  destruct a, b; cbn in Wa, Wb; try contradiction; cbn [shift to_i] in H; unfold ill in H; try discriminate H;
     cbn [repr lower_shift].
-    destruct left; unfold shl8, lshr8; (replace (z0 <? 8) with true by (symmetry; apply Z.ltb_lt; lia));
-      reflexivity.
+  - (* Z Z *) destruct ((z0 <? 0) || (64 <=? z0)) eqn:G; inv H.
+    + apply orb_true_iff in G. cbn [repr]. rewrite sel64_out; [reflexivity|].
+      unfold min64, max64 in Wb. destruct G as [G|G]; [apply Z.ltb_lt in G|apply Z.leb_le in G].
+      * replace (z0 mod 2^64) with (z0 + 2^64) by (apply Z.mod_unique with (q := -1); lia). lia.
+      * rewrite Z.mod_small by lia. lia.
+    + apply orb_false_iff in G. destruct G as [G1 G2]. apply Z.ltb_ge in G1. apply Z.leb_gt in G2.
+      rewrite (Z.mod_small z0) by lia. rewrite sel64_ok by lia. cbn [repr]. destruct left; reflexivity.
+  - (* Z B *) destruct ((z0 <? 0) || (64 <=? z0)) eqn:G; inv H; unfold zext8_64.
+    + apply orb_true_iff in G. cbn [repr]. rewrite sel64_out; [reflexivity|].
+      destruct G as [G|G]; [apply Z.ltb_lt in G; lia|apply Z.leb_le in G; lia].
+    + apply orb_false_iff in G. destruct G as [G1 G2]. apply Z.ltb_ge in G1. apply Z.leb_gt in G2.
+      rewrite sel64_ok by lia. cbn [repr]. destruct left; reflexivity.
+  - (* B Z *) unfold trunc64_8. rewrite mod_mod_256.
+    assert (0 <= z0 mod 256 < 256) by (apply Z.mod_pos_bound; lia).
+    unfold sel_shift8.
+    destruct (8 <=? z0 mod 256) eqn:G; inv H; cbn [repr].
+    + apply Z.leb_le in G. replace (z0 mod 256 <? 8) with false by (symmetry; apply Z.ltb_ge; lia). reflexivity.
+    + apply Z.leb_gt in G. replace (z0 mod 256 <? 8) with true by (symmetry; apply Z.ltb_lt; lia).
+      destruct left; reflexivity.
+  - (* B B *) unfold sel_shift8.
+    destruct (8 <=? z0) eqn:G; inv H; cbn [repr].
+    + apply Z.leb_le in G. replace (z0 <? 8) with false by (symmetry; apply Z.ltb_ge; lia). reflexivity.
+    + apply Z.leb_gt in G. replace (z0 <? 8) with true by (symmetry; apply Z.ltb_lt; lia).
+      destruct left; reflexivity.
 Qed.
 
 Lemma eq_correct : forall a b r,
@@ -389,6 +441,11 @@ Proof.
   - (* Ge *) eapply cmp_correct; eauto using icmp_sge; reflexivity.
 Qed.
 
+(* a zero divisor: RefSem says Laufzeitfehler, the emitted code calls the runtime error before the instruction *)
+Theorem mod_zero_lowering_correct : forall a b,
+  wf a -> wf b -> bin_op BMod a b = RErr -> lower_bin BMod (repr a) (repr b) = LRtErr.
+Proof. intros a b Wa Wb H. apply (proj2 (mod_correct a b Wa Wb)). exact H. Qed.
+
 (* regression witness of the repaired cell: 200 als Byte durch 2,0 is 100 *)
 Definition two_f : Z := 4611686018427387904.   (* 2.0 *)
 Example div_byte_komma_witness :
@@ -437,15 +494,7 @@ Proof.
   destruct t; cbn in ST; try discriminate ST; destruct a; cbn in Wa; try contradiction; cbn [cast_to] in H;
     try discriminate H.
   - (* Zahl <- Z *) inv H. reflexivity.
-  - (* Zahl <- K *)
-    cbn [repr lower_cast as_int]. unfold fptosi64.
-    destruct (f_trunc bits) as [z|]; [|discriminate H].
-    destruct ((min64 <=? z) && (z <=? max64)) eqn:R; [|discriminate H]. inv H.
-    apply andb_true_iff in R. destruct R as [R1 R2]. apply Z.leb_le in R1. apply Z.leb_le in R2.
-    unfold min64, max64 in *.
-    replace ((- 2^63 <=? z) && (z <? 2^63)) with true
-      by (symmetry; apply andb_true_iff; split; [apply Z.leb_le|apply Z.ltb_lt]; lia).
-    reflexivity.
+  - (* Zahl <- K *) inv H. reflexivity.
   - (* Zahl <- B *) inv H. cbn. unfold zext8_64. now rewrite small_byte_mod.
   - (* Zahl <- W *) inv H. cbn. destruct b; reflexivity.
   - (* Zahl <- C *) inv H. cbn. unfold sext32_64. now rewrite signed32_mod.
@@ -453,14 +502,7 @@ Proof.
   - (* Komma <- K *) inv H. cbn. now rewrite Wa.
   - (* Komma <- B *) inv H. reflexivity.
   - (* Byte <- Z *) inv H. cbn. unfold trunc64_8, wrap8. now rewrite mod_mod_256.
-  - (* Byte <- K *)
-    cbn [repr lower_cast as_byte]. unfold fptoui8.
-    destruct (f_trunc bits) as [z|]; [|discriminate H].
-    destruct ((0 <=? z) && (z <=? 255)) eqn:R; [|discriminate H]. inv H.
-    apply andb_true_iff in R. destruct R as [R1 R2]. apply Z.leb_le in R1. apply Z.leb_le in R2.
-    replace ((0 <=? z) && (z <? 256)) with true
-      by (symmetry; apply andb_true_iff; split; [apply Z.leb_le|apply Z.ltb_lt]; lia).
-    reflexivity.
+  - (* Byte <- K *) inv H. reflexivity.
   - (* Byte <- B *) inv H. reflexivity.
   - (* Bool <- Z *) inv H. cbn. f_equal. f_equal. f_equal.
     rewrite <- (mod64_eqb z 0 Wa) by (unfold min64, max64; lia). reflexivity.
